@@ -56,6 +56,14 @@ def configs(tier):
             c[ident] = sp
             if _injective(c):
                 out.append(c)
+    # prefix-related spellings for every ordered pair of identifiers (two departures), in both tiers
+    for a, b in itertools.permutations(IDS, 2):
+        for sa, sb in (("%", "%%"), ("#~", "#~~"), ("$@", "$")):
+            c = dict(DEFAULTS)
+            c[a] = sa
+            c[b] = sb
+            if _injective(c) and c not in out:
+                out.append(c)
     if tier == "thorough":
         for a, b in itertools.combinations(IDS, 2):
             for sa in pool_for(a, 2):
@@ -185,6 +193,8 @@ def plan(tier, seed):
 
 
 _REF = {}
+_PREV_BY_TEMPLATE = {}  # template index -> (compiled query, its string form, configuration) from an earlier configuration
+_SEEN_CONF = {}
 
 
 def _reference(ti, tmpl):
@@ -255,7 +265,29 @@ def _check_conf(conf, acc, record=True, only_t=None):
                     if bad:
                         break
                 if bad is None:
+                    # the other entry points of the same compiled query
+                    doc0, fc0 = DOCS[0], CONTEXTS[1]
+                    it = [m.obj for m in p.finditer(doc0, filter_context=fc0)]
+                    qv = list(p.query(doc0, filter_context=fc0).values())
+                    m1 = p.match(doc0, filter_context=fc0)
+                    if not jeq_list(it, ref[1]) or not jeq_list(qv, ref[1]):
+                        bad = ("entry-points-disagree", ref[1], [it, qv])
+                    elif (m1 is None) != (not ref[1]) or (m1 is not None and not jeq_list([m1.obj], ref[1][:1])):
+                        bad = ("entry-points-disagree", ref[1][:1], None if m1 is None else m1.obj)
+                if bad is None:
                     s = str(p)
+                    # the string form must not change when another environment compiles something afterwards
+                    dep = _departures(conf)
+                    for pti, (pp, ps, pconf) in list(_PREV_BY_TEMPLATE.items()):
+                        if pconf != dep and str(pp) != ps:
+                            bad = ("string-form-changed-by-other-environment", ps, [str(pp), {"first_config": pconf, "template": pti}])
+                            break
+                    # remember, per template, a query compiled under an earlier configuration
+                    if ti not in _PREV_BY_TEMPLATE or _PREV_BY_TEMPLATE[ti][2] != dep:
+                        if len(_SEEN_CONF.setdefault(ti, [])) < 2 or ti not in _PREV_BY_TEMPLATE:
+                            _PREV_BY_TEMPLATE[ti] = (p, s, dep)
+                            _SEEN_CONF[ti].append(dep)
+                if bad is None:
                     try:
                         p2 = env.compile(s)
                     except JSONPathError as e:
